@@ -182,6 +182,12 @@ theorem SerialInv.exec {sys : Sys} (h : SerialInv sys) (a : Action) (hf : a.fres
     exact h.envStep hbase (h.marker.gcRes g k n) fun t ht =>
       serialFacts_resChange (h.base.threads t ht) (h.facts t ht) (SameUsages.gcRes _ g k n).usages
         (fun u hl hidx => hl.gcRes hidx g k n)
+  | er g k n l =>
+    exact h.envStep hbase (h.marker.touchRes h.base.store g k n l) fun t ht =>
+      serialFacts_resChange (h.base.threads t ht) (h.facts t ht) (SameUsages.touchRes _ g k n l).usages
+        (fun u hl _ => hl.touchRes h.base.store g k n l)
+  | stepW n o c => simp [Action.fresh] at hf
+  | xaRaw n c => simp [Action.fresh] at hf
   | start n =>
     refine ⟨hbase, ?_, ?_, ?_⟩
     · simp only [Sys.exec]
